@@ -37,6 +37,42 @@ pub use local_authority::{
 };
 pub use runner::{SessionEngine, SessionHandle};
 
+/// Items re-exported for the verification harness only (cargo feature `verif`).
+#[cfg(all(feature = "verif", not(test)))]
+pub mod verif_export {
+    use std::path::Path;
+    use std::sync::Arc;
+
+    pub use crate::provider_openresponses::OpenResponsesConfig;
+    pub use crate::server::verif_acquire_authority_lock_with_recovery as acquire_authority_lock_with_recovery;
+    pub use crate::server::verif_build_app as build_app;
+    pub use rip_provider_openresponses::ToolChoiceParam;
+
+    pub fn parse_tool_choice(value: &str) -> Result<ToolChoiceParam, String> {
+        crate::provider_openresponses::parse_tool_choice_env(value)
+    }
+
+    /// Run the run-time context compile for (thread, message); optionally log its two frames.
+    pub fn compile_context_for_run(
+        engine: &crate::SessionEngine,
+        data_dir: &Path,
+        link: &crate::ContinuityRunLink,
+        run_session_id: &str,
+        append_frames: bool,
+    ) -> Result<serde_json::Value, String> {
+        let store: Arc<crate::ContinuityStore> = engine.continuities();
+        let log = engine.verif_event_log();
+        crate::session::verif_compile_context_for_run(
+            store.as_ref(),
+            log.as_ref(),
+            &data_dir.join("snapshots"),
+            link,
+            run_session_id,
+            append_frames,
+        )
+    }
+}
+
 #[cfg(not(test))]
 pub async fn serve_default() {
     server::serve(server::data_dir()).await;
